@@ -20,6 +20,7 @@ import random
 import shutil
 import tempfile
 from concurrent.futures import ThreadPoolExecutor
+from fractions import Fraction
 
 from vf import tlc, par, ir_expr
 from vf.core import MachineryError, exc_record
@@ -59,6 +60,8 @@ def tags_of(p):
         if "e" in p["chars"] or "E" in p["chars"]:
             t.append("exp")
         return t
+    if p["kind"] == "big":
+        return ["lit", "num", "big", "int" if p["expect"]["int"] else "real"]
     if p["kind"] == "str":
         t = ["lit", "str"]
         if "BS" in p["chars"]:
@@ -98,6 +101,16 @@ def judge(p, node, envs):
         else:
             ok = type(v) is float and v == q[1] / q[2]
         exp = "%s %d/%d" % ("Integer" if want["int"] else "Real", q[1], q[2])
+    elif p["kind"] == "big":
+        # digit strings from the spec; exact python integers / the correctly rounded double of the exact decimal
+        mant = int("".join(want["mant"]))
+        if want["int"]:
+            ok = type(v) is int and want["scale"] == 0 and v == mant
+            exp = "Integer %d" % mant
+        else:
+            exact = Fraction(mant) * Fraction(10) ** want["scale"]
+            ok = type(v) is float and v == float(exact)
+            exp = "Real %s (nearest double %r)" % (exact, float(exact))
     elif p["kind"] == "str":
         s = ir_expr.chars_to_text(want["chars"])
         ok = type(v) is str and v == s
@@ -234,6 +247,11 @@ def selftest(envs):
     good2, _ = judge(lit, ast.Primary(value=2.5), envs)
     bad3, _ = judge(lit, ast.Primary(value=25), envs)
     bad4, _ = judge(dict(lit, expect={"int": True, "val": [0, 5, 2]}), ast.Primary(value=2.5), envs)
+    big = {"kind": "big", "chars": list("9007199254740993"), "expect": {"int": True, "mant": list("9007199254740993"), "scale": 0}}
+    good3, _ = judge(big, ast.Primary(value=9007199254740993), envs)
+    bad5, _ = judge(big, ast.Primary(value=9007199254740992), envs)
+    if good3 is not None or bad5 is None:
+        raise MachineryError("binding self-test: big integer literals are not compared exactly")
     if good is not None or good2 is not None:
         raise MachineryError("binding self-test: a correct observation was flagged: %s %s (is environment 1 still a=2,b=3,c=5?)" % (good, good2))
     if bad1 is None or bad2 is None or bad3 is None or bad4 is None:
@@ -305,7 +323,7 @@ def _run(ctx, thorough, procs, scratch):
     roots = {p["shape"][0] for p in allprogs if p["kind"] == "expr"}
     pms = {p["pm"] for p in allprogs if p["kind"] == "expr"}
     kinds = {p["kind"] for p in allprogs}
-    if not OPCLASSES_ROOT <= roots or not {"min", "red", "full", "lits", "mixed", "elseif"} <= pms or not {"num", "str", "bool", "expr"} <= kinds:
+    if not OPCLASSES_ROOT <= roots or not {"min", "red", "full", "lits", "mixed", "elseif"} <= pms or not {"num", "big", "str", "bool", "expr"} <= kinds:
         raise MachineryError("vacuous corpus: roots=%s printings=%s kinds=%s" % (sorted(roots), sorted(pms), sorted(kinds)))
     dropped = sum(1 for p in allprogs if p["kind"] == "expr" and all(v[0] not in (0, 1) for v in p["vals"]))
     brk = [p for p in allprogs if p["kind"] == "expr" and p["brk"]]
@@ -333,13 +351,14 @@ def _run(ctx, thorough, procs, scratch):
 
     for p in [q for q in allprogs if q["kind"] == "expr" and q["pm"] == "min" and q["nalts"] > 3][:3] + \
             [q for q in allprogs if q["kind"] == "num" and not q["expect"]["int"]][:1] + \
+            [q for q in allprogs if q["kind"] == "big"][:1] + \
             [q for q in allprogs if q["kind"] == "str" and "BS" in q["chars"]][:1]:
         ctx.sample({"text": text_of(p), "expected": p.get("vals", p.get("expect")), "distinguishing_env": p.get("denv"),
                     "other_bracketings": p.get("nalts")})
     ctx.extra["corpora"] = per
     ctx.extra["per_root_class"] = {r: sum(1 for p in allprogs if p["kind"] == "expr" and p["shape"][0] == r) for r in sorted(roots)}
     ctx.extra["per_printing"] = {m: sum(1 for p in allprogs if p["kind"] == "expr" and p["pm"] == m) for m in sorted(pms)}
-    ctx.extra["literal_programs"] = {k: sum(1 for p in allprogs if p["kind"] == k) for k in ("num", "str", "bool")}
+    ctx.extra["literal_programs"] = {k: sum(1 for p in allprogs if p["kind"] == k) for k in ("num", "big", "str", "bool")}
     ctx.extra["dropped_undefined_everywhere"] = dropped
     ctx.extra["bracketing_analysis"] = {"programs": len(brk), "without_single_distinguishing_env": degenerate,
                                         "max_other_bracketings": max([p["nalts"] for p in brk] or [0])}
